@@ -313,6 +313,11 @@ CLAIMS["C01"]["text"] += LIFT_NOTE + ("Instance C01_fills_honour_accepted_limits
                                       "acceptance records of its buy and its sell order, names their agents, and its price is within the limits those orders were accepted with.")
 CLAIMS["C08"]["text"] += LIFT_NOTE + ("Instance C08_storage_invariant_in_every_run: the storage invariant of the price series and the lifetime invariant of the books hold for every "
                                       "market of every run, so the per-operation rules apply at every accepted order, cancel, fill and clock step of every simulation.")
+CLAIMS["C06"]["text"] += (" Whole simulations (theories/SimPast.v, the relational use of SimMarketLift.v): from any state satisfying the run invariant wf - which the initial state "
+                          "satisfies and the begin record, the clock update, any number of steps and whole sessions preserve - after ANY number of further steps or a whole further session "
+                          "the markets are the same, no clock has moved backwards, and for every time strictly before a market's clock in the earlier state all eight recorded values are "
+                          "exactly what they were (C06_recorded_history_never_changes_in_a_run, C06_recorded_history_survives_a_session), for every configuration with distinct market ids, "
+                          "every tape, agent behaviour and event.")
 for _p in ("C01", "C04", "C08"):
     CLAIMS[_p]["technique"] += " + generic lifting of Level-M invariants to every market of every simulation (SimMarketLift.v)"
 
